@@ -41,6 +41,9 @@ type Spec struct {
 	MinCounts   map[string]int // rule -> minimum number of obligations
 	Trusted     []string
 	CrossRefPkgs []string // packages for cross-reference tools in the thorough tier
+	// OnlyGOOS restricts the configurations of the matrix the rules apply to
+	// (the anchored code is behind a build constraint); empty = all.
+	OnlyGOOS []string
 }
 
 // RunControl loads the repository with the control's overlay and checks
